@@ -311,7 +311,7 @@ class Sky130Walker(h.HierarchyWalker):
 
         mod = self.diode_module(params)
 
-        if params.w is not None and params.w is not None:
+        if params.w is not None and params.l is not None:
             # This scaling is a quirk of SKY130
             a = params.w * params.l * 1 * TERA
             pj = 2 * (params.w + params.l) * MEGA
